@@ -46,7 +46,9 @@ def correspondence(ctx):
     _spec.loader.exec_module(mod)
     quick = ctx.tier == 'quick'
     seed = ctx.rng.randrange(1, 10 ** 4)
-    cs = mod.cases(seed, 30 if quick else 400)
+    cs = common.safe_cases(ctx, NAME, lambda: mod.cases(seed, 30 if quick else 400))
+    if cs is None:
+        return
     nops = sum(len(c[0]) for c in cs)
     for c in cs:
         ctx.case(('udflayout', len(c[0]) // 8, len(c[3]) // 8, bool(c[1][1])), True)
